@@ -2,19 +2,26 @@
    Only statements, each closed by [exact] of a lemma proved in Mapset/MapsetProofs*.v.
 
    Reading guide.  T is any type with a decidable equality [eqb] (hypothesis: eqb x y = true <->
-   x = y), [zero] the zero value of T.  A map value is [gomap T] = option (list T): None is the nil
-   map, Some l an allocated map with keys l; [wf m] = the keys are distinct; [has m x] = x is a
-   key.  [ord] arguments are the iteration orders chosen by the Go runtime: ANY list may be handed
-   in; the model answers BadOrder iff the list is not a duplicate-free enumeration of the keys of
-   the map being ranged over (C18_valid_order_iff), so every statement below holds for every legal
-   order.  [run] executes a history over named set variables (all nil at first); [srun] is the
-   reference on mathematical sets (Mapset/MapsetSpec.v, meaning in C18_spec_meaning).  [R st sst]
-   = every variable has distinct keys which are exactly the members of its reference set.
-   [out_ok] = same booleans/ints/elements; a returned set has exactly the reference members; a
-   returned slice is the given prefix followed by each member exactly once. *)
+   x = y; so no NaN-like keys), [zero] the zero value of T.  A map value is [gomap T] =
+   option (positive * list T): None is the nil map, Some (p, l) the map allocated at address p
+   with keys l; two values alias iff they have the same address.  [wf m] = the keys are distinct;
+   [has m x] = x is a key.  [fresh]/[next] is the allocator's frontier.  [ord] arguments are the
+   iteration orders chosen by the Go runtime: ANY list may be handed in; the model answers
+   BadOrder iff the list is not a duplicate-free enumeration of the keys of the map being ranged
+   over (C18_valid_order_iff), so every statement below holds for every legal order.  Results
+   are [res]: Ok, a panic, BadOrder, or Unmodelled (the statement skeleton of the Go source is not
+   the one the model was written for); the theorems exclude everything but Ok/BadOrder.
+   [run] executes a history over named set variables (all nil at first); [srun] is the reference
+   on mathematical sets (Mapset/MapsetSpec.v, meaning in C18_spec_meaning).  [R st sst] = every
+   variable has distinct keys which are exactly the members of its reference set.  [out_ok] = same
+   booleans/ints/elements; a returned set has exactly the reference members; a returned slice is
+   the given prefix followed by each member exactly once.
+   The Examples compute iteration orders with the model itself and compare sorted summaries, so
+   that they show non-vacuity without pinning choices the source may make differently. *)
 From Coq Require Import ZArith List Bool Permutation.
 Import ListNotations.
-From Mds Require Import Mapset.MapsetModel Mapset.MapsetSpec Mapset.MapsetProofs Mapset.MapsetProofsMut Mapset.MapsetProofsHist.
+From Mds Require Import Mapset.MapsetModel Mapset.MapsetSpec Mapset.MapsetProofs Mapset.MapsetProofsMut Mapset.MapsetProofsHist
+  Mapset.MapsetProofsId Mapset.MapsetExamples.
 Local Open Scope Z_scope.
 
 (* ---- histories *)
@@ -22,64 +29,74 @@ Local Open Scope Z_scope.
 (* FULL STATEMENT: after any sequence of operations (Add, AddAll, Remove, RemoveAll, Pop, Clear,
    and also New, NewSize, Clone, Intersect, Range, Keys, Values, nil assignment, and all the
    reads) on any number of variables, started in any state related to the reference, under any
-   legal iteration orders: no panic, every output is the reference's, and every variable still
-   holds exactly its reference set. *)
+   legal iteration orders: no panic (except Range of the nil function, where the reference says
+   so too), every output is the reference's, and every variable still holds exactly its
+   reference set. *)
 Theorem C18_history : forall (T : Type) (eqb : T -> T -> bool) (zero : T), (forall x y, eqb x y = true <-> x = y) ->
-  forall (ops : list (op T)) (st : store T) (sst : sstore T), R T st sst ->
-  ~ In (RBadOrder T) (snd (run T eqb zero st ops)) ->
-  R T (fst (run T eqb zero st ops)) (fst (srun T eqb zero sst ops)) /\
-  Forall2 (out_ok T) (snd (run T eqb zero st ops)) (snd (srun T eqb zero sst ops)).
+  forall (ops : list (op T)) (st : store T) (next : positive) (sst : sstore T), R T st sst ->
+  ~ In (RBadOrder T) (snd (run T eqb zero st next ops)) ->
+  R T (fst (run T eqb zero st next ops)) (fst (srun T eqb zero sst ops)) /\
+  Forall2 (out_ok T) (snd (run T eqb zero st next ops)) (snd (srun T eqb zero sst ops)).
 Proof. exact history_refines. Qed.
 Print Assumptions C18_history.
 
-Definition ex_ops : list (op Z) :=
-  [OAdd Z 0 [3;1;3]; ONew Z 1 [1;2]; OAddAll Z 2 1 [2;1]; OAddAll Z 0 1 [1;2]; OPop Z 0 [1;3;2]; ORemoveAll Z 0 1 [2;1];
-   OIsSubset Z 0 1 [3]; OIntersects Z 1 0 [3]; OEquals Z 2 1 [1;2]; OIntersect Z 3 [0%nat;1%nat;2%nat] [3]; OSlice Z 1 [2;1]; OClear Z 1;
-   OHasAll Z 1 []; OHasAny Z 1 [1]; OPop Z 1 []; OLen Z 0; OAppend Z 0 (Some [9]) [3]].
+(* orders are filled in by [canon_ops]; Pops are on sets of at most one element so that no choice is pinned *)
+Definition ex_ops0 : list (op Z) :=
+  [OAdd Z 0 [3;1;3]; ONew Z 1 [1;2]; OAddAll Z 2 1 []; OAddAll Z 0 1 []; ORemoveAll Z 0 1 []; OPop Z 0 []; OPop Z 0 []; OAdd Z 0 [3;4;4];
+   OIsSubset Z 0 1 []; OIntersects Z 1 0 []; OEquals Z 2 1 []; OIntersect Z 3 [0%nat;1%nat;2%nat] []; OSlice Z 1 []; OClear Z 1;
+   OHasAll Z 1 []; OHasAny Z 1 [1]; OLen Z 0; OAppend Z 0 (Some [9]) []; ORemoveAll Z 0 0 []; OAddAll Z 2 2 []; OClone Z 4 2; ORemove Z 4 [1;1;7];
+   ORange Z 5 None; ORange Z 5 (Some [2;2]); ONewSize Z 6 (-1)].
+Definition ex_ops : list (op Z) := canon_ops Z Z.eqb 0 (store0 Z) next0 ex_ops0.
 Example C18_history_ex :
-  snd (run Z Z.eqb 0 (store0 Z) ex_ops) =
-  [RSet Z (Some [3;1]); RSet Z (Some [1;2]); RSet Z (Some [1;2]); RSet Z (Some [3;1;2]); RElem Z 1; RSet Z (Some [3]);
-   RBool Z false; RBool Z false; RBool Z true; RSet Z (Some []); RSlice Z (Some [2;1]); RSet Z (Some []);
-   RBool Z true; RBool Z false; RElem Z 0; RInt Z 1; RSlice Z (Some [9;3])]
-  /\ ~ In (RBadOrder Z) (snd (run Z Z.eqb 0 (store0 Z) ex_ops)).
-Proof. vm_compute. split; [reflexivity|]. intuition discriminate. Qed.
+  map out_summary (snd (run Z Z.eqb 0 (store0 Z) next0 ex_ops)) =
+  [[1;1;3]; [1;1;2]; [1;1;2]; [1;1;2;3]; [1;3]; [4;3]; [4;0]; [1;3;4];
+   [2;0]; [2;0]; [2;1]; [1]; [6;1;2]; [1];
+   [2;1]; [2;0]; [3;2]; [6;3;4;9]; [1]; [1;1;2]; [1;1;2]; [1;2];
+   [7]; [1;2]; [1]]
+  /\ existsb is_badorder (snd (run Z Z.eqb 0 (store0 Z) next0 ex_ops)) = false.
+Proof. vm_compute. split; reflexivity. Qed.
 
 (* the same from the initial state: all variables nil, all reference sets empty *)
 Theorem C18_history_from_nil : forall (T : Type) (eqb : T -> T -> bool) (zero : T), (forall x y, eqb x y = true <-> x = y) ->
   forall ops : list (op T),
-  ~ In (RBadOrder T) (snd (run T eqb zero (store0 T) ops)) ->
-  R T (fst (run T eqb zero (store0 T) ops)) (fst (srun T eqb zero (sstore0 T) ops)) /\
-  Forall2 (out_ok T) (snd (run T eqb zero (store0 T) ops)) (snd (srun T eqb zero (sstore0 T) ops)).
+  ~ In (RBadOrder T) (snd (run T eqb zero (store0 T) next0 ops)) ->
+  R T (fst (run T eqb zero (store0 T) next0 ops)) (fst (srun T eqb zero (sstore0 T) ops)) /\
+  Forall2 (out_ok T) (snd (run T eqb zero (store0 T) next0 ops)) (snd (srun T eqb zero (sstore0 T) ops)).
 Proof. exact history_from_nil. Qed.
 Print Assumptions C18_history_from_nil.
+(* the reference's side of the same history (no orders, no nil, no addresses) *)
 Example C18_history_from_nil_ex :
-  snd (srun Z Z.eqb 0 (sstore0 Z) ex_ops) =
-  [SSet Z [1;3]; SSet Z [2;1]; SSet Z [1;2]; SSet Z [2;1;3]; SElem Z 1; SSet Z [3];
-   SBool Z false; SBool Z false; SBool Z true; SSet Z []; SList Z [] [2;1]; SSet Z [];
-   SBool Z true; SBool Z false; SElem Z 0; SInt Z 1; SList Z [9] [3]].
+  map (fun so => match so with SSet _ A => 1 :: zsort A | SBool _ b => [2; b2z b] | SInt _ z => [3; z] | SElem _ x => [4; x]
+                               | SList _ p A => 6 :: zsort (p ++ A) | SBadChoice _ => [-1] | SPanicNilFunc _ => [7] end)
+      (snd (srun Z Z.eqb 0 (sstore0 Z) ex_ops)) =
+  [[1;1;3]; [1;1;2]; [1;1;2]; [1;1;2;3]; [1;3]; [4;3]; [4;0]; [1;3;4];
+   [2;0]; [2;0]; [2;1]; [1]; [6;1;2]; [1];
+   [2;1]; [2;0]; [3;2]; [6;3;4;9]; [1]; [1;1;2]; [1;1;2]; [1;2];
+   [7]; [1;2]; [1]].
 Proof. vm_compute. reflexivity. Qed.
 
 (* membership, Len and IsEmpty of a related variable are those of its reference set *)
 Theorem C18_reads : forall (T : Type) (eqb : T -> T -> bool), (forall x y, eqb x y = true <-> x = y) ->
   forall (st : store T) (sst : sstore T), R T st sst -> forall i,
-  (forall x, Has T eqb (st i) x = s_mem T eqb x (sst i)) /\
-  Len T (st i) = s_card T (sst i) /\
-  IsEmpty T (st i) = Z.eqb (s_card T (sst i)) 0 /\
+  (forall x, Has T eqb (st i) x = Ok (s_mem T eqb x (sst i))) /\
+  Len T (st i) = Ok (s_card T (sst i)) /\
+  IsEmpty T (st i) = Ok (Z.eqb (s_card T (sst i)) 0) /\
   NoDup (m_keys T (st i)) /\ Permutation (m_keys T (st i)) (sst i).
 Proof. exact R_reads. Qed.
 Print Assumptions C18_reads.
-Example C18_reads_ex : Has Z Z.eqb (Some [3;1]) 1 = true /\ Len Z (Some [3;1]) = 2 /\ IsEmpty Z None = true /\ Len Z None = 0.
-Proof. vm_compute. auto. Qed.
+Example C18_reads_ex : Has Z Z.eqb (Some (5%positive, [3;1])) 1 = Ok true /\ Len Z (Some (5%positive, [3;1])) = Ok 2 /\ IsEmpty Z None = Ok true /\ Len Z None = Ok 0
+  /\ Has Z Z.eqb None 0 = Ok false.
+Proof. vm_compute. auto 6. Qed.
 
 (* the hypothesis on orders is not a restriction on histories: in every reachable state every
    operation has a legal order (the keys themselves), and it is not rejected *)
 Theorem C18_legal_order_exists : forall (T : Type) (eqb : T -> T -> bool) (zero : T), (forall x y, eqb x y = true <-> x = y) ->
-  forall (st : store T) (sst : sstore T) (o : op T), R T st sst ->
-  snd (step T eqb zero st (canonical_order T st o)) <> RBadOrder T.
+  forall (st : store T) (next : positive) (sst : sstore T) (o : op T), R T st sst ->
+  snd (step T eqb zero st next (canonical_order T st o)) <> RBadOrder T.
 Proof. exact legal_order_exists. Qed.
 Print Assumptions C18_legal_order_exists.
 Example C18_legal_order_exists_ex :
-  canonical_order Z (upd Z (store0 Z) 1 (Some [4;2])) (OPop Z 1 []) = OPop Z 1 [4;2].
+  canonical_order Z (upd Z (store0 Z) 1 (Some (1%positive, [4;2]))) (OPop Z 1 []) = OPop Z 1 [4;2].
 Proof. reflexivity. Qed.
 
 (* an order is accepted iff it is a permutation of the keys *)
@@ -88,8 +105,8 @@ Theorem C18_valid_order_iff : forall (T : Type) (eqb : T -> T -> bool), (forall 
 Proof. exact valid_order_iff. Qed.
 Print Assumptions C18_valid_order_iff.
 Example C18_valid_order_iff_ex :
-  valid_order Z Z.eqb [2;3;1] (Some [1;2;3]) = true /\ valid_order Z Z.eqb [2;2;1] (Some [1;2;3]) = false
-  /\ valid_order Z Z.eqb [] None = true.
+  valid_order Z Z.eqb [2;3;1] (Some (1%positive, [1;2;3])) = true /\ valid_order Z Z.eqb [2;2;1] (Some (1%positive, [1;2;3])) = false
+  /\ valid_order Z Z.eqb [] None = true /\ valid_order Z Z.eqb [1;2] (Some (1%positive, [1;2;3])) = false.
 Proof. vm_compute. auto. Qed.
 
 (* the reference operations are the set-theoretic ones *)
@@ -130,8 +147,9 @@ Theorem C18_intersects : forall (T : Type) (eqb : T -> T -> bool), (forall x y, 
 Proof. exact Intersects_spec. Qed.
 Print Assumptions C18_intersects.
 Example C18_intersects_ex :
-  Intersects Z Z.eqb (Some [1;2;3]) (Some [5;3]) [3;5] = Ok true /\ Intersects Z Z.eqb None (Some [5;3]) [] = Ok false
-  /\ Intersects Z Z.eqb (Some [1;2;3]) (Some [5;3]) [1;2;3] = BadOrder.
+  let s := Some (1%positive, [1;2;3]) in let t := Some (2%positive, [5;3]) in
+  Intersects Z Z.eqb s t (intersects_order Z s t) = Ok true /\ Intersects Z Z.eqb None t (intersects_order Z None t) = Ok false
+  /\ Intersects Z Z.eqb s t [9] = BadOrder /\ Intersects Z Z.eqb s s (intersects_order Z s s) = Ok true.
 Proof. vm_compute. auto. Qed.
 
 Theorem C18_issubset : forall (T : Type) (eqb : T -> T -> bool), (forall x y, eqb x y = true <-> x = y) ->
@@ -144,9 +162,11 @@ Theorem C18_issubset : forall (T : Type) (eqb : T -> T -> bool), (forall x y, eq
 Proof. exact IsSubset_spec. Qed.
 Print Assumptions C18_issubset.
 Example C18_issubset_ex :
-  IsSubset Z Z.eqb (Some [3;1]) (Some [1;2;3]) [1;3] = Ok true /\ IsSubset Z Z.eqb (Some [3;4]) (Some [1;2;3]) [4;3] = Ok false
-  /\ IsSubset Z Z.eqb None None [] = Ok true /\ IsSubset Z Z.eqb (Some [1;2]) (Some [2;1]) [2;1] = Ok true.
-Proof. vm_compute. auto. Qed.
+  IsSubset Z Z.eqb (Some (1%positive, [3;1])) (Some (2%positive, [1;2;3])) [1;3] = Ok true
+  /\ IsSubset Z Z.eqb (Some (1%positive, [3;4])) (Some (2%positive, [1;2;3])) [4;3] = Ok false
+  /\ IsSubset Z Z.eqb None None [] = Ok true /\ IsSubset Z Z.eqb (Some (1%positive, [1;2])) (Some (2%positive, [2;1])) [2;1] = Ok true
+  /\ IsSubset Z Z.eqb (Some (1%positive, [1;2])) (Some (1%positive, [1;2])) [2;1] = Ok true.
+Proof. vm_compute. auto 6. Qed.
 
 Theorem C18_equals : forall (T : Type) (eqb : T -> T -> bool), (forall x y, eqb x y = true <-> x = y) ->
   forall (s t : gomap T) (ord : list T), wf T s -> wf T t ->
@@ -158,47 +178,53 @@ Theorem C18_equals : forall (T : Type) (eqb : T -> T -> bool), (forall x y, eqb 
 Proof. exact Equals_spec. Qed.
 Print Assumptions C18_equals.
 Example C18_equals_ex :
-  Equals Z Z.eqb (Some [3;1]) (Some [1;3]) [1;3] = Ok true /\ Equals Z Z.eqb (Some []) None [] = Ok true
-  /\ Equals Z Z.eqb (Some [1;2]) (Some [1;3]) [2;1] = Ok false.
+  Equals Z Z.eqb (Some (1%positive, [3;1])) (Some (2%positive, [1;3])) [1;3] = Ok true /\ Equals Z Z.eqb (Some (1%positive, [])) None [] = Ok true
+  /\ Equals Z Z.eqb (Some (1%positive, [1;2])) (Some (2%positive, [1;3])) [2;1] = Ok false
+  /\ Equals Z Z.eqb (Some (1%positive, [1;2])) (Some (1%positive, [1;2])) [2;1] = Ok true.
 Proof. vm_compute. auto. Qed.
 
+(* HasAll/HasAny take argument LISTS: repeats and the empty list included *)
 Theorem C18_hasall : forall (T : Type) (eqb : T -> T -> bool), (forall x y, eqb x y = true <-> x = y) ->
-  forall (s : gomap T) (ts : list T), HasAll T eqb s ts = true <-> forall x, In x ts -> has T s x.
+  forall (s : gomap T) (ts : list T), exists b, HasAll T eqb s ts = Ok b /\ (b = true <-> forall x, In x ts -> has T s x).
 Proof. exact HasAll_spec. Qed.
 Print Assumptions C18_hasall.
 Example C18_hasall_ex :
-  HasAll Z Z.eqb None [] = true /\ HasAll Z Z.eqb None [1] = false /\ HasAll Z Z.eqb (Some [1;2]) [2;2;1] = true.
-Proof. vm_compute. auto. Qed.
+  HasAll Z Z.eqb None [] = Ok true /\ HasAll Z Z.eqb None [1] = Ok false /\ HasAll Z Z.eqb (Some (1%positive, [1;2])) [2;2;1] = Ok true
+  /\ HasAll Z Z.eqb (Some (1%positive, [1])) [1;1] = Ok true /\ HasAll Z Z.eqb (Some (1%positive, [1])) [] = Ok true.
+Proof. vm_compute. auto 6. Qed.
 
 Theorem C18_hasany : forall (T : Type) (eqb : T -> T -> bool), (forall x y, eqb x y = true <-> x = y) ->
-  forall (s : gomap T) (ts : list T), HasAny T eqb s ts = true <-> exists x, In x ts /\ has T s x.
+  forall (s : gomap T) (ts : list T), exists b, HasAny T eqb s ts = Ok b /\ (b = true <-> exists x, In x ts /\ has T s x).
 Proof. exact HasAny_spec. Qed.
 Print Assumptions C18_hasany.
 Example C18_hasany_ex :
-  HasAny Z Z.eqb None [1] = false /\ HasAny Z Z.eqb (Some [1;2]) [] = false /\ HasAny Z Z.eqb (Some [1;2]) [3;2] = true.
+  HasAny Z Z.eqb None [1] = Ok false /\ HasAny Z Z.eqb (Some (1%positive, [1;2])) [] = Ok false /\ HasAny Z Z.eqb (Some (1%positive, [1;2])) [3;2] = Ok true.
 Proof. vm_compute. auto. Qed.
 
-(* Intersect of any number of operands: a non-nil set of exactly the common elements *)
+(* Intersect of any number of operands: a non-nil set, at the fresh address, of exactly the common elements *)
 Theorem C18_intersect : forall (T : Type) (eqb : T -> T -> bool), (forall x y, eqb x y = true <-> x = y) ->
-  forall (ss : list (gomap T)) (ord : list T), Forall (wf T) ss ->
-  match Intersect T eqb ss ord with
-  | Ok r => exists l, r = Some l /\ NoDup l /\ forall y, In y l <-> (ss <> [] /\ forall s, In s ss -> has T s y)
+  forall (ss : list (gomap T)) (fresh : positive) (ord : list T), Forall (wf T) ss ->
+  match Intersect T eqb ss fresh ord with
+  | Ok r => exists l, r = Some (fresh, l) /\ NoDup l /\ forall y, In y l <-> (ss <> [] /\ forall s, In s ss -> has T s y)
   | BadOrder => exists min, intersect_operand T ss = Ok min /\ valid_order T eqb ord min = false
   | _ => False
   end.
 Proof. exact Intersect_spec. Qed.
 Print Assumptions C18_intersect.
 Example C18_intersect_ex :
-  Intersect Z Z.eqb [Some [1;2;3]; Some [3;1]; Some [4;1;3]] [1;3] = Ok (Some [1;3]) /\ Intersect Z Z.eqb [] [] = Ok (Some [])
-  /\ Intersect Z Z.eqb [Some [1;2]; None] [] = Ok (Some []).
+  let ss := [Some (1%positive, [1;2;3]); Some (2%positive, [3;1]); Some (3%positive, [4;1;3])] in
+  match Intersect Z Z.eqb ss 9%positive (intersect_order Z ss) with Ok r => m_ptr Z r = 9 /\ keys_sorted r = [1;3] | _ => False end
+  /\ Intersect Z Z.eqb [] 9%positive [] = Ok (Some (9%positive, []))
+  /\ Intersect Z Z.eqb [Some (1%positive, [1;2]); None] 9%positive (intersect_order Z [Some (1%positive, [1;2]); None]) = Ok (Some (9%positive, []))
+  /\ match Intersect Z Z.eqb [Some (1%positive, [1;2]); Some (1%positive, [1;2])] 9%positive [2;1] with Ok r => m_ptr Z r = 9 /\ keys_sorted r = [1;2] | _ => False end.
 Proof. vm_compute. auto. Qed.
 
 (* ---- nil-ness, Pop, Slice/Append, frame *)
 
-(* New, NewSize, Clone, Intersect, Range, Keys, Values (and Add, AddAll) yield a non-nil set *)
+(* New, NewSize, Clone, Intersect, Range (of a non-nil iterator), Keys, Values (and Add, AddAll) yield a non-nil set *)
 Theorem C18_constructors_nonnil : forall (T : Type) (eqb : T -> T -> bool) (zero : T), (forall x y, eqb x y = true <-> x = y) ->
-  forall (st : store T) (sst : sstore T) (o : op T), R T st sst -> constructs T o = true ->
-  match snd (step T eqb zero st o) with
+  forall (st : store T) (next : positive) (sst : sstore T) (o : op T), R T st sst -> constructs T o = true ->
+  match snd (step T eqb zero st next o) with
   | RSet _ m => m <> None
   | RBadOrder _ => True
   | _ => False
@@ -206,26 +232,35 @@ Theorem C18_constructors_nonnil : forall (T : Type) (eqb : T -> T -> bool) (zero
 Proof. exact constructors_nonnil. Qed.
 Print Assumptions C18_constructors_nonnil.
 Example C18_constructors_nonnil_ex :
-  snd (step Z Z.eqb 0 (store0 Z) (OClone Z 1 0)) = RSet Z (Some []) /\ snd (step Z Z.eqb 0 (store0 Z) (OAddAll Z 1 0 [])) = RSet Z (Some [])
-  /\ snd (step Z Z.eqb 0 (store0 Z) (OIntersect Z 1 [0%nat;0%nat] [])) = RSet Z (Some []) /\ snd (step Z Z.eqb 0 (store0 Z) (OKeys Z 1 [])) = RSet Z (Some []).
+  snd (step Z Z.eqb 0 (store0 Z) 1%positive (OClone Z 1 0)) = RSet Z (Some (1%positive, [])) /\ snd (step Z Z.eqb 0 (store0 Z) 1%positive (OAddAll Z 1 0 [])) = RSet Z (Some (1%positive, []))
+  /\ snd (step Z Z.eqb 0 (store0 Z) 1%positive (OIntersect Z 1 [0%nat;0%nat] [])) = RSet Z (Some (1%positive, [])) /\ snd (step Z Z.eqb 0 (store0 Z) 1%positive (OKeys Z 1 [])) = RSet Z (Some (1%positive, []))
+  /\ snd (step Z Z.eqb 0 (store0 Z) 1%positive (OAdd Z 1 [])) = RSet Z (Some (1%positive, [])) /\ snd (step Z Z.eqb 0 (store0 Z) 1%positive (ONewSize Z 1 (-5))) = RSet Z (Some (1%positive, [])).
+Proof. vm_compute. auto 7. Qed.
+
+(* the one panic of the package: Range applied to the nil iterator function *)
+Theorem C18_range_nil_panics : forall (T : Type) (eqb : T -> T -> bool) (fresh : positive), Range T eqb None fresh = PanicNilFunc.
+Proof. exact Range_nil. Qed.
+Print Assumptions C18_range_nil_panics.
+Example C18_range_nil_panics_ex : snd (step Z Z.eqb 0 (store0 Z) 1%positive (ORange Z 0 None)) = RPanicNilFunc Z /\ Range Z Z.eqb (Some []) 1%positive = Ok (Some (1%positive, [])).
 Proof. vm_compute. auto. Qed.
 
 (* Pop: nothing changes and the zero value comes back on an empty or nil set; otherwise exactly
-   one member is removed, and it is the one returned *)
+   one member is removed, and it is the one returned; the set keeps its address *)
 Theorem C18_pop : forall (T : Type) (eqb : T -> T -> bool) (zero : T), (forall x y, eqb x y = true <-> x = y) ->
   forall (s : gomap T) (ord : list T), wf T s ->
   match Pop T eqb zero s ord with
   | Ok (s', x) =>
       ((m_keys T s = [] /\ s' = s /\ x = zero /\ ord = []) \/
-       (has T s x /\ (forall y, has T s' y <-> has T s y /\ y <> x) /\ Len T s' = Len T s - 1 /\ exists r, ord = x :: r))
-      /\ wf T s' /\ (s' = None <-> s = None)
+       (has T s x /\ (forall y, has T s' y <-> has T s y /\ y <> x) /\ m_len T s' = m_len T s - 1 /\ exists r, ord = x :: r))
+      /\ wf T s' /\ (s' = None <-> s = None) /\ m_ptr T s' = m_ptr T s
   | BadOrder => valid_order T eqb ord s = false
   | _ => False
   end.
 Proof. exact Pop_spec. Qed.
 Print Assumptions C18_pop.
 Example C18_pop_ex :
-  Pop Z Z.eqb 0 (Some [1;2;3]) [2;3;1] = Ok (Some [1;3], 2) /\ Pop Z Z.eqb 0 None [] = Ok (None, 0) /\ Pop Z Z.eqb 0 (Some []) [] = Ok (Some [], 0).
+  Pop Z Z.eqb 0 (Some (1%positive, [1;2;3])) [2;3;1] = Ok (Some (1%positive, [1;3]), 2) /\ Pop Z Z.eqb 0 None [] = Ok (None, 0)
+  /\ Pop Z Z.eqb 0 (Some (1%positive, [])) [] = Ok (Some (1%positive, []), 0) /\ Pop Z Z.eqb 0 (Some (1%positive, [0])) [0] = Ok (Some (1%positive, []), 0).
 Proof. vm_compute. auto. Qed.
 
 Theorem C18_slice : forall (T : Type) (eqb : T -> T -> bool) (zero : T), (forall x y, eqb x y = true <-> x = y) ->
@@ -237,7 +272,8 @@ Theorem C18_slice : forall (T : Type) (eqb : T -> T -> bool) (zero : T), (forall
   end.
 Proof. exact Slice_spec. Qed.
 Print Assumptions C18_slice.
-Example C18_slice_ex : Slice Z Z.eqb 0 (Some [1;2;3]) [3;1;2] = Ok (Some [3;1;2]) /\ Slice Z Z.eqb 0 (Some []) [] = Ok None.
+Example C18_slice_ex : Slice Z Z.eqb 0 (Some (1%positive, [1;2;3])) [3;1;2] = Ok (Some [3;1;2]) /\ Slice Z Z.eqb 0 (Some (1%positive, [])) [] = Ok None
+  /\ Slice Z Z.eqb 0 None [] = Ok None.
 Proof. vm_compute. auto. Qed.
 
 Theorem C18_append : forall (T : Type) (eqb : T -> T -> bool), (forall x y, eqb x y = true <-> x = y) ->
@@ -249,25 +285,143 @@ Theorem C18_append : forall (T : Type) (eqb : T -> T -> bool), (forall x y, eqb 
   end.
 Proof. exact Append_spec. Qed.
 Print Assumptions C18_append.
-Example C18_append_ex : Append Z Z.eqb (Some [1;2]) (Some [7;7]) [2;1] = Ok (Some [7;7;2;1]) /\ Append Z Z.eqb None None [] = Ok None.
+Example C18_append_ex : Append Z Z.eqb (Some (1%positive, [1;2])) (Some [7;7]) [2;1] = Ok (Some [7;7;2;1]) /\ Append Z Z.eqb None None [] = Ok None
+  /\ Append Z Z.eqb (Some (1%positive, [])) (Some []) [] = Ok (Some []).
+Proof. vm_compute. auto. Qed.
+
+(* ---- storage identity: aliasing = same address *)
+
+(* FULL STATEMENT over histories: from any state in which no two variables share a map, after
+   every operation of every history (1) New/NewSize/Clone/Intersect/Range/Keys/Values, and
+   Add/AddAll on a nil receiver, have returned a map at an address handed out by that very call;
+   Add/AddAll on a non-nil receiver, Remove, RemoveAll and Clear have returned their receiver; Pop
+   has kept its receiver's address; reads changed nothing; and (2) still no two variables share a
+   map and every address in use is below the allocator's frontier. *)
+Theorem C18_identity_history : forall (T : Type) (eqb : T -> T -> bool) (zero : T), (forall x y, eqb x y = true <-> x = y) ->
+  forall (ops : list (op T)) (st : store T) (next : positive) (sst : sstore T), R T st sst -> ids_ok T st next ->
+  hist_ids T eqb zero st next ops.
+Proof. exact identity_history. Qed.
+Print Assumptions C18_identity_history.
+Example C18_identity_history_ex :
+  let st := fst (run Z Z.eqb 0 (store0 Z) next0 ex_ops) in
+  map (fun i => m_ptr Z (st i)) [0%nat;1%nat;2%nat;3%nat;4%nat;5%nat;6%nat;7%nat] = [1; 3; 5; 23; 41; 47; 49; 0].
+Proof. vm_compute. reflexivity. Qed.
+
+Theorem C18_identity_history_from_nil : forall (T : Type) (eqb : T -> T -> bool) (zero : T), (forall x y, eqb x y = true <-> x = y) ->
+  forall ops : list (op T), hist_ids T eqb zero (store0 T) next0 ops.
+Proof. exact identity_history_from_nil. Qed.
+Print Assumptions C18_identity_history_from_nil.
+Example C18_identity_history_from_nil_ex : ids_ok Z (store0 Z) next0 /\ R Z (store0 Z) (sstore0 Z).
+Proof. split; [apply ids_ok0 | apply R0]. Qed.
+
+(* the property's wording: what New, NewSize, Clone, Intersect, Range, Keys, Values return is not
+   nil and aliases no variable of the state they were called in (their arguments in particular) *)
+Theorem C18_constructor_result_fresh : forall (T : Type) (eqb : T -> T -> bool) (zero : T), (forall x y, eqb x y = true <-> x = y) ->
+  forall (st : store T) (next : positive) (sst : sstore T) (o : op T), R T st sst -> ids_ok T st next -> constructor T o = true ->
+  match snd (step T eqb zero st next o) with
+  | RSet _ m => m <> None /\ (forall k, m_ptr T m <> m_ptr T (st k)) /\ Zpos next <= m_ptr T m
+  | RBadOrder _ => True
+  | _ => False
+  end.
+Proof. exact constructor_result_fresh. Qed.
+Print Assumptions C18_constructor_result_fresh.
+Example C18_constructor_result_fresh_ex :
+  let st := upd Z (upd Z (store0 Z) 0 (Some (1%positive, [1;2]))) 1 (Some (2%positive, [2;3])) in
+  match snd (step Z Z.eqb 0 st 3%positive (OIntersect Z 0 [0%nat;1%nat] (intersect_order Z [st 0%nat; st 1%nat]))) with
+  | RSet _ m => m_ptr Z m = 3 /\ keys_sorted m = [2] | _ => False end
+  /\ match snd (step Z Z.eqb 0 st 3%positive (OClone Z 1 1)) with RSet _ m => m_ptr Z m = 3 /\ keys_sorted m = [2;3] | _ => False end.
+Proof. vm_compute. auto. Qed.
+
+Theorem C18_nil_receiver_result_fresh : forall (T : Type) (eqb : T -> T -> bool) (zero : T), (forall x y, eqb x y = true <-> x = y) ->
+  forall (st : store T) (next : positive) (sst : sstore T) (o : op T) (i : nat), R T st sst -> ids_ok T st next ->
+  (exists items, o = OAdd T i items) \/ (exists j ord, o = OAddAll T i j ord) -> st i = None ->
+  match snd (step T eqb zero st next o) with
+  | RSet _ m => m <> None /\ (forall k, m_ptr T m <> m_ptr T (st k)) /\ Zpos next <= m_ptr T m
+  | RBadOrder _ => True
+  | _ => False
+  end.
+Proof. exact nil_receiver_result_fresh. Qed.
+Print Assumptions C18_nil_receiver_result_fresh.
+Example C18_nil_receiver_result_fresh_ex :
+  let st := upd Z (store0 Z) 1 (Some (2%positive, [2;3])) in
+  match snd (step Z Z.eqb 0 st 3%positive (OAddAll Z 0 1 [3;2])) with RSet _ m => m_ptr Z m = 3 /\ keys_sorted m = [2;3] | _ => False end.
+Proof. vm_compute. auto. Qed.
+
+Theorem C18_mutator_returns_receiver : forall (T : Type) (eqb : T -> T -> bool) (zero : T), (forall x y, eqb x y = true <-> x = y) ->
+  forall (st : store T) (next : positive) (sst : sstore T) (o : op T) (i : nat), R T st sst ->
+  ((exists items, o = OAdd T i items) \/ (exists j ord, o = OAddAll T i j ord)) /\ st i <> None \/
+  (exists items, o = ORemove T i items) \/ (exists j ord, o = ORemoveAll T i j ord) \/ o = OClear T i ->
+  match snd (step T eqb zero st next o) with
+  | RSet _ m => m_ptr T m = m_ptr T (st i) /\ fst (step T eqb zero st next o) i = m
+  | RBadOrder _ => True
+  | _ => False
+  end.
+Proof. exact mutator_returns_receiver. Qed.
+Print Assumptions C18_mutator_returns_receiver.
+Example C18_mutator_returns_receiver_ex :
+  let st := upd Z (upd Z (store0 Z) 0 (Some (1%positive, [1;2]))) 1 (Some (2%positive, [2;3])) in
+  match snd (step Z Z.eqb 0 st 3%positive (OAddAll Z 0 1 [3;2])) with RSet _ m => m_ptr Z m = 1 /\ keys_sorted m = [1;2;3] | _ => False end
+  /\ snd (step Z Z.eqb 0 st 3%positive (OClear Z 7)) = RSet Z None.
+Proof. vm_compute. auto. Qed.
+
+(* self-application: RemoveAll of a set from itself (deleting from the map being ranged over)
+   empties it and returns it; AddAll of a set to itself changes nothing *)
+Theorem C18_removeall_self : forall (T : Type) (eqb : T -> T -> bool), (forall x y, eqb x y = true <-> x = y) ->
+  forall (s : gomap T) (ord : list T), wf T s ->
+  match RemoveAll T eqb s s ord with
+  | Ok r => m_keys T r = [] /\ m_ptr T r = m_ptr T s
+  | BadOrder => valid_order T eqb ord s = false
+  | _ => False
+  end.
+Proof. exact removeall_self. Qed.
+Print Assumptions C18_removeall_self.
+Example C18_removeall_self_ex :
+  RemoveAll Z Z.eqb (Some (1%positive, [1;2;3])) (Some (1%positive, [1;2;3])) [2;3;1] = Ok (Some (1%positive, []))
+  /\ same_map Z (Some (1%positive, [1;2;3])) (Some (1%positive, [1;2;3])) = true /\ RemoveAll Z Z.eqb None None [] = Ok None.
+Proof. vm_compute. auto. Qed.
+
+Theorem C18_addall_self : forall (T : Type) (eqb : T -> T -> bool), (forall x y, eqb x y = true <-> x = y) ->
+  forall (s : gomap T) (fresh : positive) (ord : list T), wf T s -> s <> None ->
+  match AddAll T eqb s s fresh ord with
+  | Ok r => m_ptr T r = m_ptr T s /\ (forall y, has T r y <-> has T s y) /\ m_len T r = m_len T s
+  | BadOrder => valid_order T eqb ord s = false
+  | _ => False
+  end.
+Proof. exact addall_self. Qed.
+Print Assumptions C18_addall_self.
+Example C18_addall_self_ex :
+  AddAll Z Z.eqb (Some (1%positive, [1;2;3])) (Some (1%positive, [1;2;3])) 5%positive [2;3;1] = Ok (Some (1%positive, [1;2;3])).
 Proof. vm_compute. auto. Qed.
 
 (* what must not change: an operation leaves every variable other than its receiver/destination
-   alone (its arguments included), and the reads leave all of them alone *)
-Theorem C18_frame : forall (T : Type) (eqb : T -> T -> bool) (zero : T) (st : store T) (o : op T) (k : nat),
-  (k <> target T o \/ observer T o = true) -> fst (step T eqb zero st o) k = st k.
+   alone (its arguments included), and the reads leave all of them alone.  In a model with value
+   semantics this alone would be true by construction; it carries weight together with
+   C18_identity_history: no two variables ever share a map, so no write can reach another one. *)
+Theorem C18_frame : forall (T : Type) (eqb : T -> T -> bool) (zero : T) (st : store T) (next : positive) (o : op T) (k : nat),
+  (k <> target T o \/ observer T o = true) -> fst (step T eqb zero st next o) k = st k.
 Proof. exact step_frame. Qed.
 Print Assumptions C18_frame.
 Example C18_frame_ex :
-  let st := upd Z (upd Z (store0 Z) 0 (Some [1;2])) 1 (Some [2;3]) in
-  fst (step Z Z.eqb 0 st (ORemoveAll Z 0 1 [3;2])) 1%nat = Some [2;3] /\ fst (step Z Z.eqb 0 st (ORemoveAll Z 0 1 [3;2])) 0%nat = Some [1].
+  let st := upd Z (upd Z (store0 Z) 0 (Some (1%positive, [1;2]))) 1 (Some (2%positive, [2;3])) in
+  fst (step Z Z.eqb 0 st 3%positive (ORemoveAll Z 0 1 [3;2])) 1%nat = Some (2%positive, [2;3])
+  /\ fst (step Z Z.eqb 0 st 3%positive (ORemoveAll Z 0 1 [3;2])) 0%nat = Some (1%positive, [1]).
 Proof. vm_compute. auto. Qed.
 
 (* an illegal order is reported without touching any variable *)
-Theorem C18_badorder_no_effect : forall (T : Type) (eqb : T -> T -> bool) (zero : T) (st : store T) (o : op T),
-  snd (step T eqb zero st o) = RBadOrder T -> fst (step T eqb zero st o) = st.
+Theorem C18_badorder_no_effect : forall (T : Type) (eqb : T -> T -> bool) (zero : T) (st : store T) (next : positive) (o : op T),
+  snd (step T eqb zero st next o) = RBadOrder T -> fst (step T eqb zero st next o) = st.
 Proof. exact step_badorder_state. Qed.
 Print Assumptions C18_badorder_no_effect.
 Example C18_badorder_no_effect_ex :
-  snd (step Z Z.eqb 0 (upd Z (store0 Z) 0 (Some [1;2])) (OPop Z 0 [5;1])) = RBadOrder Z.
+  snd (step Z Z.eqb 0 (upd Z (store0 Z) 0 (Some (1%positive, [1;2]))) 3%positive (OPop Z 0 [5;1])) = RBadOrder Z.
 Proof. vm_compute. reflexivity. Qed.
+
+(* the statement skeletons of mapset.go are the ones the model was written for: every tripwire
+   (what each loop ranges over, what is deleted from what, which key is looked up or stored, which
+   helper gets which argument, that Pop / add / AddAll consult no length) reads from the source of
+   this run the value the model assumes *)
+Theorem C18_skeleton : intact all_tripwires = true /\ (0 < length all_tripwires)%nat.
+Proof. exact skeleton_intact. Qed.
+Print Assumptions C18_skeleton.
+Example C18_skeleton_ex : guarded all_tripwires (Ok 5) = Ok 5 /\ guarded ((1, 2) :: all_tripwires) (Ok 5) = Unmodelled.
+Proof. vm_compute. auto. Qed.
